@@ -38,7 +38,7 @@ from harness import wrapsym  # noqa: E402
 from lib import checklib  # noqa: E402
 
 PID = "C01"
-BUILDS = [("strs.yaml", "strs.hpp"), ("cstrs.yaml", "cstrs.h"), ("flib.yaml", "flib.hpp")]
+BUILDS = [("strs.yaml", "strs.hpp"), ("cstrs.yaml", "cstrs.h"), ("flib.yaml", "flib.hpp"), ("own.yaml", "own.hpp")]
 _FB = {}
 
 
@@ -171,6 +171,10 @@ class FortranHarness(object):
                     o = gx.m.new_obj("result_text", N, "heap")
                     self.result = Actual("char", obj=o, n=None, arr0=o.arr)
                     argv.append(Ptr(o, 0))
+                elif tt is not None and tt.kind == "struct" and (tt.name or "").startswith("array01_"):
+                    o = gx.m.new_obj("result_array_pointer", 64, "heap")
+                    self.result = Actual("array_ptr", obj=o)
+                    argv.append(Ptr(o, 0))
                 elif tt is not None and tt.kind == "struct":
                     o = gx.m.new_obj("result_struct", gx.sizeof(tt), "heap")
                     self.result = Actual("struct", obj=o, gtype=tt)
@@ -221,6 +225,39 @@ class FortranHarness(object):
                 gx.m.store_int(P(56), n, 64)
                 self.act[pn] = Actual("array", desc=desc, obj=dobj, n=n, size=n, esz=esz, stride=stride, arr0=dobj.arr, v0=n)
                 argv.append(Ptr(desc, 0))
+            elif pt.kind == "ptr" and pt.to.kind == "struct" and (pt.to.name or "") == "array01_character(kind=1)" and pn in lens:
+                n = z3.BitVec("size_" + pn, 64)
+                e.assume(z3.And(n >= 0, n <= 2))
+                for k in range(N + 1):
+                    # the element length decides the copy loops of libgfortran's pack: one path per length
+                    if k == N or e.branch(lens[pn] == k):
+                        e.assume(lens[pn] == k)
+                        lens[pn] = z3.BitVecVal(k, 64)
+                        break
+                el = lens[pn]
+                stride = 2 if e.branch(z3.Bool("actual_%s_is_a_strided_section" % pn)) else 1
+                dobj = gx.m.new_obj("chararray_" + pn, z3.simplify(n * stride * el), "heap")
+                desc = gx.m.new_obj("descriptor_" + pn, 64, "heap")
+                P = lambda off: Ptr(desc, off)
+                gx.m.store_ptr(P(0), Ptr(dobj, 0))
+                gx.m.store_int(P(8), z3.BitVecVal(-stride, 64), 64)
+                gx.m.store_int(P(16), el, 64)
+                gx.m.store_int(P(24), z3.BitVecVal(0, 32), 32)
+                gx.m.store_int(P(28), z3.BitVecVal(1, 8), 8)
+                gx.m.store_int(P(29), z3.BitVecVal(6, 8), 8)
+                gx.m.store_int(P(30), z3.BitVecVal(0, 16), 16)
+                gx.m.store_int(P(32), el, 64)
+                gx.m.store_int(P(40), z3.BitVecVal(stride, 64), 64)
+                gx.m.store_int(P(48), z3.BitVecVal(1, 64), 64)
+                gx.m.store_int(P(56), n, 64)
+                self.act[pn] = Actual("chararray", desc=desc, obj=dobj, n=n, size=n, elen=el, stride=stride, arr0=dobj.arr, v0=n)
+                argv.append(Ptr(desc, 0))
+            elif pt.kind == "ptr" and pt.to.kind == "struct" and (pt.to.name or "").endswith("_shroud_capsule"):
+                o = gx.m.new_obj("capsule_" + pn, 16, "heap")
+                gx.m.store_ptr(Ptr(o, 0), NULL)
+                gx.m.store_int(Ptr(o, 8), z3.BitVecVal(0, 32), 32)
+                self.act[pn] = Actual("capsule", obj=o, v0=z3.BitVecVal(0, 8))
+                argv.append(Ptr(o, 0))
             elif pt.kind == "ptr" and pt.to.kind == "struct" and (pt.to.name or "").startswith("__class_"):
                 inst = self.new_instance(gx, pn, pt.to.name)
                 box = gx.m.new_obj("class_container_" + pn, 16, "heap")
@@ -267,7 +304,11 @@ class FortranHarness(object):
         e = gx.e
         if re.search(r"shroud_copy_string_and_free$", name):
             return self.copy_helper(gx, name, args)
+        if re.search(r"shroud_copy_array(_\w+)?$", name):
+            return self.copy_array_helper(gx, name, args)
         cname = self.fb.ifaces.get(name.lower())
+        if cname and cname.endswith("_SHROUD_memory_destructor"):
+            return self.memory_destructor(gx, name, args)
         info = self.cinfos.get(cname) if cname else None
         if info is None and cname:
             info = self.direct_info(cname)
@@ -309,7 +350,15 @@ class FortranHarness(object):
                     if p.tname == "bool" or a.gtype.name == "logical":
                         self.expect_fail("%s does not carry the caller's truth value" % what, (got != 0) != (cur != 0))
                     elif got.size() != cur.size():
-                        self.expect_fail("%s is passed with %d bits, the caller's value has %d" % (what, got.size(), cur.size()), True)
+                        # fortran_generic variants convert to the C function's type: widening is value preserving
+                        if got.size() < cur.size():
+                            self.expect_fail("%s is passed with %d bits, the caller's value has %d" % (what, got.size(), cur.size()), True)
+                        elif a.gtype.kind == "float":
+                            want = gx.m.from_fp(z3.fpFPToFP(z3.RNE(), gx.m.to_fp(cur, cur.size()), gx.m.fsort(got.size())))
+                            self.expect_fail("%s is not the caller's value converted to the C type" % what, got != want)
+                        else:
+                            want = z3.SignExt(got.size() - cur.size(), cur) if a.gtype.signed else z3.ZeroExt(got.size() - cur.size(), cur)
+                            self.expect_fail("%s is not the caller's value converted to the C type" % what, got != want)
                     else:
                         self.expect_fail("%s is not the caller's value" % what, got != cur)
                 elif kind in ("charp", "string"):
@@ -339,7 +388,7 @@ class FortranHarness(object):
                 elif kind == "class":
                     ok = a is not None and a.kind == "object" and isinstance(v, Ptr) and v.obj is a.obj and conc(v.off) == 0
                     self.expect_fail("%s is not the capsule of the caller's object" % what, not ok)
-                elif kind == "nativep" and a is not None and a.kind == "array":
+                elif kind in ("nativep", "vector") and a is not None and a.kind == "array":
                     direct = isinstance(v, Ptr) and v.obj is a.obj and conc(v.off) == 0
                     packed = isinstance(v, Ptr) and v.obj is not None and v.obj.tag.get("packed_from") is not None and \
                         v.obj.tag["packed_from"][0].obj is a.obj and conc(v.off) == 0
@@ -351,7 +400,7 @@ class FortranHarness(object):
                                          not (packed or direct))
                         if direct:
                             self.expect_fail("%s: a strided section is passed without packing" % what, a.n != 0)
-                    if isinstance(v, Ptr) and v.obj is not None and v.obj.live and not p.const and p.intent in ("out", "inout"):
+                    if kind != "vector" and isinstance(v, Ptr) and v.obj is not None and v.obj.live and not p.const and p.intent in ("out", "inout"):
                         gx.m.flush(v.obj)
                         new = z3.Array("reply_array_%s!%d" % (key, gx.m.fresh_n), z3.BitVecSort(64), z3.BitVecSort(8))
                         gx.m.fresh_n += 1
@@ -360,6 +409,18 @@ class FortranHarness(object):
                             I = z3.BitVecVal(i, 64)
                             v.obj.arr = z3.Store(v.obj.arr, I, z3.If(z3.ULT(I, nbytes), z3.Select(new, I), z3.Select(v.obj.arr, I)))
                         rec["havoc"][key] = new
+                elif kind == "nativep" and a is None and p.attrs.get("hidden"):
+                    # a hidden argument: a local of the wrapper the C function writes
+                    rt_ = t.to if t is not None and t.kind == "ptr" else None
+                    ok = isinstance(v, Ptr) and v.obj is not None and v.obj.live and rt_ is not None and rt_.kind in ("int", "float")
+                    self.expect_fail("%s (hidden) is not a live local variable" % what, not ok)
+                    if ok:
+                        gx.m.store_int(v, gx.m.fresh("hidden_" + key, rt_.bits), rt_.bits)
+                elif kind == "charpp" and a is not None and a.kind == "chararray":
+                    direct = isinstance(v, Ptr) and v.obj is a.obj and conc(v.off) == 0
+                    packed = isinstance(v, Ptr) and v.obj is not None and v.obj.tag.get("packed_from") is not None and \
+                        v.obj.tag["packed_from"][0].obj is a.obj and conc(v.off) == 0
+                    self.expect_fail("%s is not the caller's character array" % what, not (direct or packed))
                 elif kind == "nativep":
                     if a is None or a.kind != "ref":
                         raise Unsupported("no by-reference actual for %s" % cn)
@@ -386,6 +447,14 @@ class FortranHarness(object):
                         self.expect_fail("%s is not the caller's variable" % what, True)
                 else:
                     raise Unsupported("C parameter %s of kind %s" % (cn, kind))
+            elif role == "size":
+                if a is None or a.kind not in ("array", "chararray"):
+                    raise Unsupported("no array actual for %s" % cn)
+                got = v if not isinstance(v, int) else z3.BitVecVal(v, 64)
+                self.expect_fail("%s is not SIZE(actual)" % what, sx(got) != a.n)
+            elif role == "len" and a is not None and a.kind == "chararray":
+                got = v if not isinstance(v, int) else z3.BitVecVal(v, 32)
+                self.expect_fail("%s is not LEN(actual)" % what, sx(got) != a.elen)
             elif role in ("len", "len_trim"):
                 if a is None or a.kind != "char":
                     raise Unsupported("no character actual for %s" % cn)
@@ -430,7 +499,7 @@ class FortranHarness(object):
                     conc(v.obj.size) == self.fb.layouts[[n for n in self.fb.layouts if n.endswith("_shroud_array")][0]]["size"]
                 self.expect_fail("%s is not a live array descriptor" % what, not ok)
                 if ok:
-                    self.fill_context(gx, v, rec, role)
+                    self.fill_context(gx, v, rec, role, p=p, info=info)
             else:
                 raise Unsupported("C parameter role %s" % role)
         if rec.get("res_buf") is not None:
@@ -443,9 +512,15 @@ class FortranHarness(object):
             bits = {"int": 32, "long": 64, "double": 64, "float": 32, "bool": 8, "char": 8, "short": 16, "size_t": 64,
                     "unsigned int": 32, "long long": 64}.get(cret.replace("const ", "").strip())
             if bits is None and cret.endswith("*"):
-                # constructors / class results also return the capsule's address, which the Fortran side ignores
+                # constructors / class results also return the capsule's address, which the Fortran side ignores;
+                # a native pointer result is the address of the library's array (the one the context describes)
                 self.calls.append(rec)
-                return Ptr(gx.m.new_obj("c_returned_pointer", 16, "extern"), 0), None
+                ctx = rec.get("context")
+                if ctx is not None and ctx.get("data") is not None:
+                    rec["ret_ptr"] = Ptr(ctx["data"], 0)
+                else:
+                    rec["ret_ptr"] = Ptr(gx.m.new_obj("c_returned_pointer", 16, "extern"), 0)
+                return rec["ret_ptr"], None
             if bits is None:
                 m = re.match(r"^(?:enum\s+)?\w+$", cret)
                 bits = 32 if m else None
@@ -494,15 +569,49 @@ class FortranHarness(object):
         a.reply = new
         rec["havoc"][key or o.name] = new
 
-    def fill_context(self, gx, v, rec, role):
+    def fill_context(self, gx, v, rec, role, p=None, info=None):
+        """what the generated C function leaves in an array descriptor: a string (scalar, rank 0) or,
+        for std::vector arguments and pointer results with a dimension, a rank-1 array"""
         lay = self.fb.layouts[[n for n in self.fb.layouts if n.endswith("_shroud_array")][0]]
         o = v.obj
+        f = lay["fields"]
+        idt = gx.m.fresh("context_idtor", 32)
+        vec_elem = None
+        if p is not None and p.kind() == "vector":
+            vec_elem = wrapsym.VECTOR_ELEM.get(p.elem)
+        elif p is None and info is not None and info.result is not None and info.result.kind() == "nativep":
+            vec_elem = wrapsym.VECTOR_ELEM.get(info.result.tname)
+        if vec_elem is not None:
+            n = 0
+            for k in (0, 1):
+                if gx.e.branch(z3.Bool("c_side_array_has_more_than_%d" % k)):
+                    n = k + 1
+                else:
+                    break
+            owned = p is not None
+            held = gx.m.new_obj("cxx_vector_for_context", 24, "heap", "new") if owned else None
+            data = gx.m.new_obj("cxx_array_data", max(n, 1) * vec_elem, "extern") if (n or not owned) else None
+            if data is not None:
+                data.tag["lib_array"] = True
+            caller_owns = p is None and info is not None and info.result_attrs.get("owner") == "caller"
+            if caller_owns:
+                gx.e.assume(idt != 0)
+                rec["owned_result"] = (data, idt)
+            gx.m.store_ptr(Ptr(o, f["cxx"][0]), Ptr(held, 0) if held is not None else (Ptr(data, 0) if caller_owns else NULL))
+            gx.m.store_int(Ptr(o, f["cxx"][0] + 8), idt if (owned or caller_owns) else z3.BitVecVal(0, 32), 32)
+            gx.m.store_ptr(Ptr(o, f["base_addr"][0]), Ptr(data, 0) if data is not None else NULL)
+            gx.m.store_int(Ptr(o, f["elem_len"][0]), z3.BitVecVal(vec_elem, 64), 64)
+            gx.m.store_int(Ptr(o, f["size"][0]), z3.BitVecVal(n, 64), 64)
+            gx.m.store_int(Ptr(o, f["rank"][0]), z3.BitVecVal(1, 32), 32)
+            gx.m.store_int(Ptr(o, f["shape"][0]), z3.BitVecVal(n, 64), 64)
+            rec["context"] = {"obj": o, "elem_len": z3.BitVecVal(vec_elem, 64), "held": held, "n": n, "esz": vec_elem,
+                              "data": data, "arg": p.name.lower() if p is not None else None}
+            self.context = rec["context"]
+            return
         held = gx.m.new_obj("cxx_object_for_context", 32, "heap", "new")
         L = gx.m.fresh("context_elem_len", 64)
         gx.e.assume(z3.ULE(L, self.cap))
         text = gx.m.new_obj("cxx_text", z3.simplify(L + 1), "extern")
-        idt = gx.m.fresh("context_idtor", 32)
-        f = lay["fields"]
         gx.m.store_ptr(Ptr(o, f["cxx"][0]), Ptr(held, 0))
         gx.m.store_int(Ptr(o, f["cxx"][0] + 8), idt, 32)
         gx.m.store_ptr(Ptr(o, f["base_addr"][0]), Ptr(text, 0))
@@ -511,6 +620,66 @@ class FortranHarness(object):
         gx.m.store_int(Ptr(o, f["rank"][0]), z3.BitVecVal(0, 32), 32)
         rec["context"] = {"obj": o, "elem_len": L, "held": held}
         self.context = rec["context"]
+
+    def memory_destructor(self, gx, name, args):
+        """<PREFIX>_SHROUD_memory_destructor(capsule) as C06 establishes it: releases what the capsule owns, then {NULL, 0}"""
+        (c, _), = args
+        if not (isinstance(c, Ptr) and c.obj is not None and c.obj.live):
+            self.expect_fail("the memory destructor is given something that is not a live capsule", True)
+            return None, None
+        addr = gx.m.load_ptr(c)
+        idt = gx.m.load_int(gx.m.padd(c, 8), 32)
+        self.released = getattr(self, "released", [])
+        if isinstance(addr, Ptr) and addr.obj is not None:
+            if gx.e.branch(idt != 0):
+                self.released.append(addr.obj)
+        gx.m.store_ptr(c, NULL)
+        gx.m.store_int(gx.m.padd(c, 8), z3.BitVecVal(0, 32), 32)
+        return None, None
+
+    def array_of(self, ptr):
+        """the caller's array actual a pointer designates (directly or as libgfortran's packed copy)"""
+        if not (isinstance(ptr, Ptr) and ptr.obj is not None and conc(ptr.off) == 0):
+            return None, None
+        for k, a in self.act.items():
+            if a.kind == "array":
+                if ptr.obj is a.obj:
+                    return k.lower(), a
+                pf = ptr.obj.tag.get("packed_from")
+                if pf is not None and pf[0].obj is a.obj:
+                    return k.lower(), a
+        return None, None
+
+    def copy_array_helper(self, gx, name, args):
+        """<PREFIX>_ShroudCopyArray(context, c_var, c_var_size): copies min(size, context size) elements, releases the vector"""
+        (d, _), (c, _), (n, tn) = args
+        ctx = getattr(self, "context", None)
+        what = "copy-array helper"
+        ok = ctx is not None and "n" in ctx and isinstance(d, Ptr) and d.obj is ctx["obj"] and conc(d.off) == 0
+        self.expect_fail("%s is not given the context the C function filled" % what, not ok)
+        key, a = self.array_of(c)
+        n64 = gx.to64(n, tn)
+        if a is None:
+            self.expect_fail("%s: destination is not the caller's array" % what, not (isinstance(c, Ptr) and c.obj is None and ok and ctx["n"] == 0) if False else True)
+            return None, None
+        if ok and ctx.get("arg") not in (None, key):
+            self.expect_fail("%s: destination is the array '%s', the context belongs to '%s'" % (what, key, ctx["arg"]), True)
+        self.expect_fail("%s: size argument is not SIZE(%s)" % (what, key), n64 != a.n)
+        if ok:
+            esz = ctx["esz"]
+            if esz != a.esz:
+                self.expect_fail("%s: element size of the array (%d) differs from the vector's (%d)" % (what, a.esz, esz), True)
+            gx.m.flush(c.obj)
+            new = z3.Array("vector_elements!%d" % gx.m.fresh_n, z3.BitVecSort(64), z3.BitVecSort(8))
+            gx.m.fresh_n += 1
+            lim = z3.If(z3.ULT(n64, z3.BitVecVal(ctx["n"], 64)), n64, z3.BitVecVal(ctx["n"], 64)) * esz
+            for i in range(2 * esz):
+                I = z3.BitVecVal(i, 64)
+                c.obj.arr = z3.Store(c.obj.arr, I, z3.If(z3.ULT(I, lim), z3.Select(new, I), z3.Select(c.obj.arr, I)))
+            self.helper_calls.append({"dest": c, "n": n64, "text": new, "array": key, "limit_bytes": lim})
+            if ctx["held"] is not None:
+                ctx["held"].live = False
+        return None, None
 
     def copy_helper(self, gx, name, args):
         """<PREFIX>_ShroudCopyStringAndFree(context, c_var, c_var_len): fills c_var, releases the C++ object"""
@@ -561,10 +730,10 @@ class FortranHarness(object):
             if a.kind == "char":
                 n = lc.mval(m, a.n)
                 w["inputs"][k] = {"len": n, "text": lc.bytes_of(m, a.arr0, min(n, self.cap + 1))}
-            elif a.kind == "array":
+            elif a.kind in ("array", "chararray"):
                 w["inputs"][k] = {"size": lc.mval(m, a.n), "stride": a.stride}
-            elif a.kind == "object":
-                w["inputs"][k] = "object"
+            elif a.kind in ("object", "capsule"):
+                w["inputs"][k] = a.kind
             else:
                 w["inputs"][k] = lc.mval(m, a.v0, a.v0.size())
         w["callee"] = [c["name"] for c in self.calls]
@@ -640,6 +809,44 @@ class FortranHarness(object):
                     checks.append(("the returned object does not hold the C++ instance the C function stored",
                                    not (isinstance(addr, Ptr) and addr.obj is rec["capsule"][0])))
                     checks.append(("the returned object does not carry the destructor index the C function stored", idt != rec["capsule"][1]))
+            ctx = rec.get("context")
+            if ctx is not None and "n" in ctx and ctx.get("arg"):
+                a = {k.lower(): v for k, v in self.act.items()}.get(ctx["arg"])
+                hcs = [h for h in self.helper_calls if h.get("array") == ctx["arg"]]
+                if len(hcs) != 1:
+                    checks.append(("the copy-array helper is called %d times for '%s', expected exactly once" % (len(hcs), ctx["arg"]), True))
+                elif a is not None:
+                    hc = hcs[0]
+                    gx.m.flush(a.obj)
+                    i = z3.BitVec("idx", 64)
+                    b = z3.BitVec("byte", 64)
+                    checks.append(("array argument '%s' does not hold the elements the library's vector delivered" % ctx["arg"],
+                                   z3.And(z3.ULT(i, a.n), z3.ULT(b, a.esz), z3.ULT(i * a.esz + b, hc["limit_bytes"]),
+                                          z3.Select(a.obj.arr, i * a.stride * a.esz + b) != z3.Select(hc["text"], i * a.esz + b))))
+            if "owned_result" in rec:
+                caps = [a for a in self.act.values() if a.kind == "capsule"]
+                if len(caps) != 1:
+                    checks.append(("a result the caller owns is returned without a capsule argument to release it with", True))
+                else:
+                    addr = gx.m.load_ptr(Ptr(caps[0].obj, 0))
+                    idt = gx.m.load_int(Ptr(caps[0].obj, 8), 32)
+                    checks.append(("the capsule argument does not hold the memory the caller now owns",
+                                   not (isinstance(addr, Ptr) and addr.obj is rec["owned_result"][0])))
+                    checks.append(("the capsule argument does not carry the destructor index the C function stored", idt != rec["owned_result"][1]))
+            if r is not None and r.kind == "array_ptr":
+                if ctx is None or "n" not in ctx:
+                    checks.append(("pointer result without an array context from the C function", True))
+                else:
+                    data = gx.m.load_ptr(Ptr(r.obj, 0))
+                    want = rec.get("ret_ptr")
+                    checks.append(("the Fortran pointer result does not designate the array the C function returned",
+                                   not (isinstance(data, Ptr) and want is not None and data.obj is want.obj and conc(data.off) == 0)))
+                    lbn = gx.m.load_int(Ptr(r.obj, 48), 64)
+                    ubn = gx.m.load_int(Ptr(r.obj, 56), 64)
+                    st = gx.m.load_int(Ptr(r.obj, 40), 64)
+                    checks.append(("the Fortran pointer result does not have the extent the C function reported", ubn - lbn + 1 != ctx["n"]))
+                    checks.append(("the Fortran pointer result is not contiguous (stride 1)", z3.And(ctx["n"] > 1, st != 1)) if ctx["n"] > 1 else
+                                  ("stride", False))
             # output arguments
             for key, new in rec["havoc"].items():
                 a = {k.lower(): v for k, v in self.act.items()}.get(key)
@@ -665,8 +872,9 @@ class FortranHarness(object):
                     else:
                         checks.append(("argument '%s' does not hold the value the C function stored" % key, cur != new))
             # intent(in) actuals unchanged
+            written = {h.get("array") for h in self.helper_calls}
             for k, a in self.act.items():
-                if a.kind == "array" and k.lower() not in rec["havoc"]:
+                if a.kind == "array" and k.lower() not in rec["havoc"] and k.lower() not in written:
                     gx.m.flush(a.obj)
                     i = z3.BitVec("idx", 64)
                     checks.append(("array argument '%s' was modified although the C function did not write it" % k,
@@ -688,7 +896,7 @@ class FortranHarness(object):
             if o.kind == "heap" and o.alloc == "malloc" and o.live:
                 checks.append(("a temporary the Fortran wrapper allocated (%s) is not released before it returns" % o.name, True))
         ctx = getattr(self, "context", None)
-        if ctx is not None and ctx["held"].live:
+        if ctx is not None and ctx["held"] is not None and ctx["held"].live:
             checks.append(("the C++ object behind the context is never released (no copy-and-release call)", True))
         nq = 0
         for what, bad in checks:
